@@ -221,6 +221,10 @@ def run(model: Model, rep: Report) -> None:
     _caches(model, rep)
     # ---------------------------------------------------------------- R5
     _doc_mutation(model, rep)
+    # ---------------------------------------------------------------- R6 (shared with C02-R8)
+    from .c02 import cache_writers_rule
+
+    cache_writers_rule(model, rep, "C12-R6")
 
 
 def _has_instance_state_writers(model: Model, cls: str) -> bool:
@@ -479,9 +483,15 @@ def _field_stores(model: Model, cls: ClassInfo, attr: str) -> List[Tuple[FuncInf
 
 
 def _doc_mutation(model: Model, rep: Report) -> None:
-    r5 = rep.rule("C12-R5", "ALIAS", "document objects are never written in place: the target of every item store / deletion / mutator call is a fresh container, not an alias of a parsed (cached) dictionary or list", 150)
+    doc_mutation_rule(model, rep, "C12-R5")
+
+
+def doc_mutation_rule(model: Model, rep: Report, rid: str, only: Optional[Tuple[str, ...]] = None, min_instances: int = 150) -> None:
+    r5 = rep.rule(rid, "ALIAS", "document objects are never written in place: the target of every item store / deletion / mutator call is a fresh container, not an alias of a parsed (cached) dictionary or list" + (f" (functions: {', '.join(x.split('.')[-2] + '.' + x.split('.')[-1] for x in only)})" if only else ""), min_instances)
     for q, f in sorted(model.funcs.items()):
         if isinstance(f.node, ast.Lambda):
+            continue
+        if only is not None and q not in only:
             continue
         da: Optional[_DocAlias] = None
         for s in walk_no_nested(f.node):
